@@ -68,6 +68,7 @@ def merge(results):
         m["n_violations"] += r["n_violations"]
         m["viol_keys"].update(r["viol_keys"])
         m["notes"] += r["notes"]
+        m.setdefault("walls", []).append(round(r.get("wall", 0), 1))
     return m
 
 
@@ -145,6 +146,7 @@ def main():
         "observed_values": {k: sorted(v)[:60] for k, v in sorted(m["sets"].items())},
         "shards": len(specs),
         "shards_failed": m["failed"],
+        "shard_wall_s": m.get("walls", []),
         "known_finding_hits": dict(known_hits),
         "violation_keys": dict(m["viol_keys"]),
         "verdict": "violated" if unknown else ("inconclusive" if reasons else "held"),
